@@ -240,6 +240,7 @@ pub fn cmd_untrusted(args: &[String]) {
                     for (class, x) in inputs {
                         if x.len() < e.typed_prefix { continue; }
                         r.evaluations += 1;
+                        r.case(&format!("{}|{}|{}|{}", e.name, len, class, rr));
                         let (out, info) = classify(e.run, &c, &x, ALLOC_SLACK + 8 * x.len());
                         r.count(&format!("{}:{}", class, out));
                         let key_fixed = e.name.contains("from_slices") || e.name.contains("try_from") || e.name.contains("pk_to_curve");
@@ -263,6 +264,7 @@ pub fn cmd_untrusted(args: &[String]) {
         } else if let Ok(txt) = std::fs::read_to_string(&tmp) {
             let r: Value = serde_json::from_str(&txt).unwrap();
             rep.evaluations += r["evaluations"].as_u64().unwrap_or(0);
+            rep.distinct_extra += r["distinct"].as_u64().unwrap_or(0);
             rep.nfail += r["nfail"].as_u64().unwrap_or(0);
             for f in r["failures"].as_array().unwrap() { if rep.failures.len() < 400 { rep.failures.push(f.clone()); } }
             for (k, v) in r["counters"].as_object().unwrap() { rep.add(&format!("{}|{}", e.name, k).replace(&format!("{}|fail:", e.name), "fail:"), v.as_u64().unwrap()); }
@@ -288,6 +290,7 @@ pub fn cmd_tags(args: &[String]) {
         for tag in 0..=255u8 {
             unsafe { *progress = tag as u32 };
             for mlen in [0usize, 1, 33] {
+                r.case(&format!("tag|{}|{}", tag, mlen));
                 let (_, mut s) = init_pair(&c.key, &c.header, 1);
                 let m = rng.bytes(mlen);
                 let w = so_push(&mut s, &m, None, tag);
@@ -323,6 +326,7 @@ pub fn cmd_tags(args: &[String]) {
     } else if let Ok(txt) = std::fs::read_to_string(&tmp) {
         let r: Value = serde_json::from_str(&txt).unwrap();
         rep.evaluations += r["evaluations"].as_u64().unwrap_or(0);
+            rep.distinct_extra += r["distinct"].as_u64().unwrap_or(0);
         rep.nfail += r["nfail"].as_u64().unwrap_or(0);
         for f in r["failures"].as_array().unwrap() { rep.failures.push(f.clone()); }
         for (k, v) in r["counters"].as_object().unwrap() { rep.add(k, v.as_u64().unwrap()); }
@@ -377,6 +381,7 @@ pub fn cmd_pwstr(args: &[String]) {
                 ("PwHash::from_string+verify", |s| match dryoc::pwhash::PwHash::<Vec<u8>, Vec<u8>>::from_string(s) { Ok(p) => r2b(p.verify(b"password")), Err(_) => false }),
                 ("PwHash::from_string_with_defaults", |s| r2b(dryoc::pwhash::PwHash::from_string_with_defaults(s))),
             ];
+            r.case(s);
             for (name, f) in fs.iter() {
                 r.evaluations += 1;
                 crate::MAXALLOC.store(0, Ordering::SeqCst);
@@ -400,6 +405,7 @@ pub fn cmd_pwstr(args: &[String]) {
     } else if let Ok(txt) = std::fs::read_to_string(&tmp) {
         let r: Value = serde_json::from_str(&txt).unwrap();
         rep.evaluations += r["evaluations"].as_u64().unwrap_or(0);
+            rep.distinct_extra += r["distinct"].as_u64().unwrap_or(0);
         rep.nfail += r["nfail"].as_u64().unwrap_or(0);
         for f in r["failures"].as_array().unwrap() { rep.failures.push(f.clone()); }
         for (k, v) in r["counters"].as_object().unwrap() { rep.add(k, v.as_u64().unwrap()); }
